@@ -142,8 +142,7 @@ pub fn run(accept: &[&str], report: &mut Report) {
     report.add("traces_validated_against_impl", recoveries);
     report.set("big_batch", json!({"first_batch": first, "second_batch": second, "journal_write_blocks": journal_blocks, "images": images}));
     for f in findings_all.into_iter().take(4) {
-        let tag = super::tag_of(&f.msg).unwrap_or_default();
-        if accept.contains(&tag.as_str()) {
+        if super::accepted(accept, &f.msg) {
             report.violation(
                 format!("bigbatch|{}", f.msg.chars().take(140).collect::<String>()),
                 format!("history: {first} inserts; flush; {second} inserts; flush\ncrash image {}\n{}", f.desc, f.msg),
